@@ -97,6 +97,20 @@ def apply_tf(g, ops, in_ctx_list, use_ctx):
             t.set_pivot((op[1], op[2], op[3]))
 
 
+def matrix_differs(mat, M, ops):
+    """the implementation's affine map against the composition the calls describe (independent 4x4 model), or None"""
+    A = [float(v) for v in mat]
+    got = [[A[0], A[1], A[2], A[9]], [A[3], A[4], A[5], A[10]], [A[6], A[7], A[8], A[11]]]
+    scale = 1.0 + max(abs(float(M[i][j])) for i in range(3) for j in range(4))
+    for i in range(3):
+        for j in range(4):
+            if abs(got[i][j] - float(M[i][j])) > 1e-9 * scale:
+                return ("after %r the transform in force maps %s to %s instead of %s (entry %d,%d of the matrix: %.12g, the calls compose to %.12g)"
+                        % (ops, "e%d" % (j + 1) if j < 3 else "the origin", [got[k][j] + (got[k][3] if j < 3 else 0) for k in range(3)],
+                           [float(M[k][j]) + (float(M[k][3]) if j < 3 else 0) for k in range(3)], i, j, got[i][j], float(M[i][j])))
+    return None
+
+
 def run_case(dp, cmds):
     """returns (model command list, per-step records)"""
     ir = ImplRun(dp)
@@ -105,20 +119,26 @@ def run_case(dp, cmds):
     mcmds, steps, mats = [], [], []
     mat = read_matrix(g)
     saved = []
+    from c13 import Ref          # the independent 4x4 reading of the transform API (translate / rotate / scale / reflect / mirror / pivot)
+    ref = Ref()
     for c in cmds:
         if c[0] == "tf":
             if c[2]:
                 saved.append(mat)
+                ref.do(("enter_current",))
             apply_tf(g, c[1], ctxs, c[2])
+            for op in c[1]:
+                ref.do(tuple(op))
             mat = read_matrix(g)
             mcmds.append(("set_transform", mat))
-            steps.append(dict(lines=[], raw=[], exc=None, calls=[], snap=snapshot(g)))
+            steps.append(dict(lines=[], raw=[], exc=None, calls=[], snap=snapshot(g), tf_error=matrix_differs(mat, ref.m, c[1])))
         elif c[0] == "exit_tf":
             # leave the innermost current_transform() context: the entry transform is back.  It is NOT read back
             # through apply_transform here, so that nothing but the builder's own calls touches the transformer
             if ctxs:
                 ctxs.pop().__exit__(None, None, None)
                 mat = saved.pop()
+                ref.do(("exit_ctx",))
             mcmds.append(("set_transform", mat))
             steps.append(dict(lines=[], raw=[], exc=None, calls=[], snap=snapshot(g)))
         else:
@@ -139,6 +159,8 @@ def oracle(dp, cmds, steps, mats):
     for i, (c, s, mat) in enumerate(zip(cmds, steps, mats)):
         if c[0] in ("tf", "exit_tf"):
             synced = False
+            if s.get("tf_error"):
+                return fails + [(i, s["tf_error"])]
             continue
         pos_before = prev
         for raw in s["raw"]:
